@@ -1,0 +1,34 @@
+//go:build verif
+
+// Contracts for contract-based deductive verification (govc, /verif).
+// This file contains comments only; it adds no code to the package.
+
+package subscribe
+
+//@ # ---- assumed: the key -> subscriber-list map (sync.Map) ------------------------------------------
+//@ # Load hands out the slice that was stored (a snapshot shared with concurrent publishers);
+//@ # Store / Delete replace the entry and touch nothing else
+//@ # (the lists in the map hold no nil registration: the subscribe branch only ever appends &info)
+//@ extern func (*sync.Map).Load
+//@   dyntype value []*subscribe.subInfo
+//@   ensures forall i :: 0 <= i && i < len(dyn(value)) ==> dyn(value)[i] != nil
+//@   assigns nothing
+//@ extern func (*sync.Map).Store
+//@   assigns nothing
+//@ extern func (*sync.Map).Delete
+//@   assigns nothing
+
+//@ # the registration loop: one subscribe or unsubscribe event per iteration
+//@ func (*subPub).process
+//@   property C40
+//@   requires s != nil
+//@   loop 1 invariant s != nil
+//@   # subscribe: the new registration goes to the end, the existing entries stay in place and in order
+//@   callassert Map.Store#1 appended-at-the-end: len(slice) >= 1 && slice[len(slice) - 1] != nil && slice[len(slice) - 1].notifier == info.notifier && slice[len(slice) - 1].key == info.key
+//@   # unsubscribe: the list that is installed is a private copy - the slice handed out by Load (which a
+//@   # concurrent Publish may still be walking) is neither stored back nor written
+//@   callassert Map.Store#2 installs-a-private-copy: ref(cSlice) != ref(slice) && len(cSlice) >= 1 && len(cSlice) <= len(slice)
+//@   loop 2 invariant 0 <= j && len(cSlice) <= len(slice) && ref(cSlice) != ref(slice) && ref(cSlice) == pre(ref(cSlice))
+//@   # (absolute region index k, so that shifted reads still match the fact)
+//@   loop 2 invariant forall k :: cSlice.off <= k && k < cSlice.off + len(cSlice) ==> cSlice[k - cSlice.off] != nil
+//@   loop 2 assigns region(cSlice)
